@@ -9,6 +9,9 @@
    mismatches, header fields and data offsets at every boundary) + seeded flips/truncations, loaded through
    Model::load / load_file / load_mmap in child processes (CPU-time + address-space limits); every constant
    of a loaded model is reported through Model::verif_graph(); bounded smoke run.
+   Both builds of the harness run the corpus: cargo profile `release` (overflow checks off) and `checked`
+   (release + overflow-checks + debug-assertions; all structured mutants, half of the seeded flips); the build
+   profile is part of every signature.
 3. Trace_Loader.tla decides: outcome in {model, error}; every constant's unbounded dims product fits in
    memory and equals the reported element count and the backing storage length."""
 import json
@@ -23,21 +26,26 @@ CFG = "load/Trace_Loader.cfg"
 def run(ctx):
     ctx.level = "exploration"
     ctx.build(["vh-load"])
+    ctx.build(["vh-load"], profile="checked")
     trace = ctx.path("fuzz.ndjson")
     if ctx.replay:
         case = ctx.replay["case"]
-        ctx.harness("vh-load", ["fuzz", "--out", trace, "--only-case", json.dumps(case)])
+        ctx.harness("vh-load", ["fuzz", "--out", trace, "--only-case", json.dumps(case)],
+                    profile=case.get("build", "release"))
         res = ctx.tlc_trace(SPEC, CFG, trace, timeout=1800)
-        return finish(ctx, trace, res)
+        return finish(ctx, [(trace, res)])
     cands = ctx.path("cands.jsonl")
     cfg = "load/MC_Loader.cfg" if ctx.quick else "load/MC_Loader_t.cfg"
     ncand = ctx.tlc_generate("load/MC_Loader", cfg, cands, workers=4, timeout=3000)
     ctx.cov["candidates_from_impl_model"] = ncand
     ctx.harness("vh-load", ["fuzz", "--out", trace, "--cands", cands], timeout=3000)
     res = ctx.tlc_trace(SPEC, CFG, trace, timeout=3000, heap="12g")
+    trace_c = ctx.path("fuzz_checked.ndjson")
+    ctx.harness("vh-load", ["fuzz", "--out", trace_c, "--cands", cands, "--scale", 50], timeout=3000, profile="checked")
+    res_c = ctx.tlc_trace(SPEC, CFG, trace_c, timeout=3000, heap="12g")
     if not ctx.quick or os.environ.get("VERIF_SELFTEST"):
         selftest(ctx, trace)
-    finish(ctx, trace, res)
+    finish(ctx, [(trace, res), (trace_c, res_c)])
 
 
 def selftest(ctx, trace):
@@ -82,16 +90,30 @@ def selftest(ctx, trace):
     ctx.log("binding self-test: 4 corrupted records of valid models rejected by Trace_Loader")
 
 
-def finish(ctx, trace, res):
-    st = res["stats"]
-    total, distinct, dnt, samples = vlib.scan_cases(
-        trace, ["fmt", "api", "gen", "mutation", "hex", "ext"], lambda r: r["mutation"] != "true")
-    for s in samples:
-        s.pop("hex", None)
-        s.pop("ext", None)
-    ctx.cov["evaluations"] = st.get("cases", total)
+def finish(ctx, runs):
+    st = {}
+    bad = []
+    badtotal = 0
+    dnt = 0
+    builds = []
+    for trace, res in runs:
+        total, distinct, d, samples = vlib.scan_cases(
+            trace, ["build", "fmt", "api", "gen", "mutation", "hex", "ext"], lambda r: r["mutation"] != "true")
+        for s in samples:
+            s.pop("hex", None)
+            s.pop("ext", None)
+        ctx.add_samples(samples, cap=6)
+        dnt += d
+        for k, v in res["stats"].items():
+            st[k] = st.get(k, 0) + v
+        bad += res["bad"]
+        badtotal += res["badtotal"]
+        if samples:
+            builds.append(samples[0]["build"])
+    ctx.cov["evaluations"] = st.get("cases", 0)
     ctx.cov["distinct_nontrivial"] = dnt
-    ctx.cov["traces_validated_against_impl"] = st.get("cases", total)
+    ctx.cov["traces_validated_against_impl"] = st.get("cases", 0)
+    ctx.cov["builds"] = builds
     ctx.cov["models_loaded"] = st.get("loaded", 0)
     ctx.cov["load_errors"] = st.get("errors", 0)
     ctx.cov["constants_checked"] = st.get("constants", 0)
@@ -102,20 +124,20 @@ def finish(ctx, trace, res):
             % (st.get("runs_panic", 0), st.get("runs_other", 0)))
     if not ctx.replay and st.get("loaded", 0) == 0:
         raise vlib.ToolError("vacuous run: no model loaded")
-    ctx.add_samples(samples)
     cases = {}
 
     def lookup(rec):
-        cid = rec.get("case", {}).get("id")
+        key = (rec.get("case", {}).get("build"), rec.get("case", {}).get("id"))
         if not cases:
-            with open(trace) as f:
-                for line in f:
-                    if '"ev":"case"' in line:
-                        r = json.loads(line)
-                        cases[r["id"]] = r
-        return cases.get(cid)
+            for trace, _ in runs:
+                with open(trace) as f:
+                    for line in f:
+                        if '"ev":"case"' in line:
+                            r = json.loads(line)
+                            cases[(r["build"], r["id"])] = r
+        return cases.get(key)
 
-    ctx.judge(res["bad"], "vh-load fuzz", SPEC, CFG, case_lookup=lookup, badtotal=res["badtotal"])
+    ctx.judge(bad, "vh-load fuzz", SPEC, CFG, case_lookup=lookup, badtotal=badtotal)
     ctx.finish(
         rule="cases = (byte string, load api); byte strings = valid ONNX / .rten models x structured mutations "
              "(8 ONNX dtypes x raw/typed/external data x 25 dims classes + TLC candidates, initializer and Constant-op; "
@@ -127,5 +149,7 @@ def finish(ctx, trace, res):
             "panic/abort/hang, plus memory faults of a smoke run",
             "constants are read through Model::verif_graph() (hook); constants inside subgraphs are not visited",
             "children run with RLIMIT_AS = 8 GiB and a CPU-time limit of 1.5 s per load+run of a < 3 KB file",
+            "build profiles exercised: harness profile `release` (overflow checks and debug assertions off) and "
+            "`checked` (the same plus overflow-checks and debug-assertions); a panic in either is a violation",
         ],
         exhaustive=False)
